@@ -548,6 +548,13 @@ func runBsc(t *testing.T, inp *Input, tr int, beh []json.RawMessage, out func(in
 			t.Fatalf("unknown bsc act %q", ev.Act)
 		}
 	}
+	// C16 for this client type (see eth.go): export + re-import of the chain that holds the clients of all behaviours so far
+	diff, info := r.n.ExportImport("A")
+	if diff == nil {
+		diff = []string{}
+	}
+	info["diff"] = diff
+	emit(json.RawMessage(`{"act":"Export"}`), 0, "", info)
 }
 
 // ---------------------------------------------------------------------------------------------------
